@@ -56,7 +56,13 @@ func init() {
 		"math/bits.Len16": func(in *Interp, fn *ssa.Function, a []Value) Value { return bitsLen(a[0].(*Term)) },
 		"math/bits.Len8":  func(in *Interp, fn *ssa.Function, a []Value) Value { return bitsLen(a[0].(*Term)) },
 		"math/bits.Len":   func(in *Interp, fn *ssa.Function, a []Value) Value { return bitsLen(a[0].(*Term)) },
-		"(github.com/ElrondNetwork/elrond-go/core.PeerID).Pretty": func(in *Interp, fn *ssa.Function, a []Value) Value { return concreteStr("<pid>") },
+		"(github.com/ElrondNetwork/elrond-go/core.PeerID).Pretty": func(in *Interp, fn *ssa.Function, a []Value) Value {
+			// injective rendering of the raw id (the real one is base58); only equality/containment of the text matters
+			if s, ok := a[0].(Str).Concrete(); ok {
+				return concreteStr("pid:" + s)
+			}
+			return Str{append(concreteStr("pid:").B, a[0].(Str).B...)}
+		},
 		"internal/bytealg.MakeNoZero": func(in *Interp, fn *ssa.Function, a []Value) Value {
 			n := int(concInt(a[0]))
 			out := make([]Value, n)
